@@ -34,11 +34,13 @@ def main():
     subprocess.run(["git", "-C", REPO, "worktree", "remove", "--force", wt], capture_output=True)
     subprocess.run(["git", "-C", REPO, "worktree", "add", "--detach", wt, "HEAD"], check=True, capture_output=True)
     head = subprocess.run(["git", "-C", REPO, "rev-parse", "--short", "HEAD"], capture_output=True, text=True).stdout.strip()
+    if os.path.exists(os.path.join(REPO, "Cargo.lock")):
+        shutil.copy(os.path.join(REPO, "Cargo.lock"), os.path.join(wt, "Cargo.lock"))      # untracked in /repo; some demos copy it
     try:
         for s in seeds:
             sd = os.path.join(SEEDED, s)
             v = s.rsplit("-", 1)[1]
-            if v[:2] in ("r2", "r3"):
+            if v[:2] in ("r2", "r3", "r4"):
                 v = v[2:]       # round-2 demos were written for SEED/A and SEED/B
             log = "/tmp/cf_%s_%s.log" % (worker, s)
             open(log, "w").close()
